@@ -3,8 +3,6 @@
 //! the file is compiled in place through `#[path]` -- no copy, no text transformation -- and the two module paths
 //! it imports from are the real revm-interpreter / revm-primitives crates.
 #![allow(unused)]
-// only for the signature of the `HashMap::get_mut` stand-in in c06.rs (std's HashMap has an allocator parameter)
-#![cfg_attr(kani, feature(allocator_api))]
 pub use revm_interpreter as interpreter; // the file says `crate::interpreter::{...}`
 pub use revm_interpreter::primitives; // `crate::primitives::{...}`
 
